@@ -604,6 +604,282 @@ theorem lookup_exportAll (env : Env P N V) (ps : List (Param V)) (hnames : (ps.m
 
 end machine
 
+/-! ## provenance: what the file holds are values of this run
+
+`H n v` stands for "parameter `n` has had the value `v` in this run".  `Within H ms`: every persistent parameter has
+such a value now, and its entry in `persistentData` (= in the file, by `Good`) imports to such a value. -/
+
+section provenance
+variable {P N V : Type} [DecidableEq P]
+
+structure Within (env : Env P N V) (H : String → V → Prop) (ms : MState N V) : Prop where
+  cur : ∀ n p, findParam ms.params n = some p → p.persistent = true → H n p.value
+  stored : ∀ n p, findParam ms.params n = some p → p.persistent = true →
+    ∃ v, (ms.believed.lookup n).bind (env.imp n) = some v ∧ H n v
+
+theorem Within.mono {env : Env P N V} {H H' : String → V → Prop} {ms : MState N V} (h : Within env H ms)
+    (hm : ∀ n v, H n v → H' n v) : Within env H' ms :=
+  ⟨fun n p hf hp => hm _ _ (h.cur n p hf hp), fun n p hf hp => by
+    obtain ⟨v, h1, h2⟩ := h.stored n p hf hp
+    exact ⟨v, h1, hm _ _ h2⟩⟩
+
+theorem mem_of_findParam {ps : List (Param V)} {n : String} {p : Param V} (h : findParam ps n = some p) :
+    p ∈ ps ∧ p.name = n := by
+  unfold findParam at h
+  exact ⟨List.mem_of_find?_eq_some h, by simpa using List.find?_some h⟩
+
+theorem doSave_believed (env : Env P N V) (ms : MState N V) (f : Option Fault) :
+    (doSave env ms f).ms.believed = ms.believed ∨ (doSave env ms f).ms.believed = exportAll env ms.params := by
+  unfold doSave saveStep
+  simp only
+  split
+  · exact Or.inl rfl
+  · split
+    · exact Or.inr rfl
+    · exact Or.inl rfl
+
+theorem doSave_within (env : Env P N V) (H : String → V → Prop) (ms : MState N V) (f : Option Fault)
+    (hnames : (ms.params.map (·.name)).Nodup) (hlaw : ∀ n v, env.imp n (env.exp n v) = some v)
+    (h : Within env H ms) : Within env H (doSave env ms f).ms := by
+  have hp : (doSave env ms f).ms.params = ms.params := rfl
+  refine ⟨fun n p hf hpers => h.cur n p (hp ▸ hf) hpers, fun n p hf hpers => ?_⟩
+  rw [hp] at hf
+  rcases doSave_believed env ms f with hb | hb
+  · rw [hb]; exact h.stored n p hf hpers
+  · obtain ⟨hmem, hname⟩ := mem_of_findParam hf
+    rw [hb, ← hname, lookup_exportAll env ms.params hnames p hmem hpers]
+    exact ⟨p.value, hlaw _ _, hname ▸ h.cur n p hf hpers⟩
+
+theorem saveParameters_within (env : Env P N V) (H : String → V → Prop) (ms : MState N V) (f : Option Fault)
+    (hnames : (ms.params.map (·.name)).Nodup) (hlaw : ∀ n v, env.imp n (env.exp n v) = some v)
+    (h : Within env H ms) : Within env H (saveParameters env ms f).ms := by
+  unfold saveParameters
+  split
+  · exact doSave_within env H ms f hnames hlaw h
+  · exact h
+
+theorem setValue_names (ps : List (Param V)) (k : String) (v : V) :
+    (setValue ps k v).map (·.name) = ps.map (·.name) := by
+  unfold setValue
+  rw [List.map_map]
+  apply List.map_congr_left
+  intro p _
+  simp only [Function.comp]
+  split <;> rfl
+
+theorem announce_within (env : Env P N V) (H : String → V → Prop) (ms : MState N V) (k : String) (v : V)
+    (f : Option Fault) (hnames : (ms.params.map (·.name)).Nodup) (hlaw : ∀ n v, env.imp n (env.exp n v) = some v)
+    (hv : ∀ p, findParam ms.params k = some p → p.persistent = true → H k v)
+    (h : Within env H ms) : Within env H (announce env ms k v f).ms := by
+  unfold announce
+  cases hk : findParam ms.params k with
+  | none => exact h
+  | some q =>
+    have h1 : Within env H { ms with params := setValue ms.params k v } := by
+      refine ⟨fun n p hf hpers => ?_, fun n p hf hpers => ?_⟩
+      · simp only [findParam_setValue] at hf
+        cases hf0 : findParam ms.params n with
+        | none => simp [hf0] at hf
+        | some p0 =>
+          simp only [hf0, Option.map_some, Option.some.injEq] at hf
+          have hp0n := (mem_of_findParam hf0).2
+          by_cases hnk : p0.name = k
+          · simp only [hnk, beq_self_eq_true, if_true] at hf
+            subst hf
+            have : n = k := hp0n ▸ hnk
+            subst this
+            rw [hk] at hf0
+            cases hf0
+            exact hv q hk hpers
+          · have hb : (p0.name == k) = false := by simpa using hnk
+            simp only [hb, Bool.false_eq_true, if_false] at hf
+            subst hf
+            exact h.cur n p0 hf0 hpers
+      · simp only [findParam_setValue] at hf
+        cases hf0 : findParam ms.params n with
+        | none => simp [hf0] at hf
+        | some p0 =>
+          simp only [hf0, Option.map_some, Option.some.injEq] at hf
+          have hpers0 : p0.persistent = true := by
+            rw [← hf] at hpers
+            split at hpers <;> exact hpers
+          exact h.stored n p0 hf0 hpers0
+    simp only
+    split
+    · exact saveParameters_within env H _ f (by simpa [setValue_names] using hnames) hlaw h1
+    · exact h1
+
+/-- whatever `writeInitParams` would assign to a persistent parameter is a value of this run -/
+def Pending (env : Env P N V) (H : String → V → Prop) (ms : MState N V) : Prop :=
+  ∀ k v p v', ms.writeDict.lookup k = some v → findParam ms.params k = some p → p.persistent = true →
+    (if p.hasWrite then env.wval k v else some v) = some v' → H k v'
+
+theorem wiStep_names (env : Env P N V) (ms : MState N V) (k : String) (v : V) (f : Option Fault) :
+    (wiStep env ms k v f).ms.params.map (·.name) = ms.params.map (·.name) := by
+  rcases wiStep_params env ms k v f with h | ⟨v', h⟩
+  · rw [h]
+  · rw [h, setValue_names]
+
+theorem wiStep_within (env : Env P N V) (H : String → V → Prop) (ms : MState N V) (k : String) (v : V)
+    (f : Option Fault) (hnames : (ms.params.map (·.name)).Nodup) (hlaw : ∀ n v, env.imp n (env.exp n v) = some v)
+    (hl : ms.writeDict.lookup k = some v) (hpend : Pending env H ms) (h : Within env H ms) :
+    Within env H (wiStep env ms k v f).ms := by
+  unfold wiStep
+  have h1 : Within env H { ms with writeDict := ms.writeDict.filter (fun e => !(e.1 == k)) } := ⟨h.cur, h.stored⟩
+  simp only
+  split
+  · rename_i v' hwv
+    refine announce_within env H { ms with writeDict := ms.writeDict.filter (fun e => !(e.1 == k)) } k v' f
+      hnames hlaw ?_ h1
+    intro p hp hpers
+    simp only at hp
+    simp only [hp] at hwv
+    exact hpend k v p v' hl hp hpers hwv
+  · exact h1
+
+theorem wiStep_pending (env : Env P N V) (H : String → V → Prop) (ms : MState N V) (k : String) (v : V)
+    (f : Option Fault) (hpend : Pending env H ms) : Pending env H (wiStep env ms k v f).ms := by
+  intro k' w p v' hl hf hpers hwv
+  rw [(wiStep_writeDict env ms k v f).1, lookup_filter_ne] at hl
+  by_cases hkk : k' = k
+  · simp [hkk] at hl
+  · simp only [hkk, if_false] at hl
+    rw [wiStep_find_other env ms k k' v f hkk] at hf
+    exact hpend k' w p v' hl hf hpers hwv
+
+theorem writeInitLoop_within (env : Env P N V) (H : String → V → Prop)
+    (hlaw : ∀ n v, env.imp n (env.exp n v) = some v) :
+    ∀ (ks : List String) (ms : MState N V) (f : Option Fault), (ms.params.map (·.name)).Nodup →
+      Pending env H ms → Within env H ms → Within env H (writeInitLoop env ks ms f).ms := by
+  intro ks
+  induction ks with
+  | nil => intro ms f _ _ h; simpa [writeInitLoop] using h
+  | cons k ks ih =>
+    intro ms f hnames hpend h
+    cases hl : ms.writeDict.lookup k with
+    | none => rw [writeInitLoop_none env k ks ms f hl]; exact ih ms f hnames hpend h
+    | some v =>
+      rw [(writeInitLoop_some env k ks ms f v hl).1]
+      exact ih _ _ (by rw [wiStep_names]; exact hnames) (wiStep_pending env H ms k v f hpend)
+        (wiStep_within env H ms k v f hnames hlaw hl hpend h)
+
+theorem writeInitLoop_names (env : Env P N V) :
+    ∀ (ks : List String) (ms : MState N V) (f : Option Fault),
+      (writeInitLoop env ks ms f).ms.params.map (·.name) = ms.params.map (·.name) := by
+  intro ks
+  induction ks with
+  | nil => intro ms f; simp [writeInitLoop]
+  | cons k ks ih =>
+    intro ms f
+    cases hl : ms.writeDict.lookup k with
+    | none => rw [writeInitLoop_none env k ks ms f hl]; exact ih ms f
+    | some v => rw [(writeInitLoop_some env k ks ms f v hl).1, ih, wiStep_names]
+
+/-- `writeInitParams` as a whole: afterwards everything is a value of this run, the values it assigned included -/
+theorem writeInit_within (env : Env P N V) (H : String → V → Prop) (ms : MState N V) (f : Option Fault)
+    (hnames : (ms.params.map (·.name)).Nodup) (hlaw : ∀ n v, env.imp n (env.exp n v) = some v)
+    (h : Within env H ms) :
+    Within env (fun n v => H n v ∨ valueOf (writeInit env ms f).ms.params n = some v) (writeInit env ms f).ms := by
+  unfold writeInit
+  apply writeInitLoop_within env _ hlaw _ ms f hnames _ (h.mono (fun _ _ hh => Or.inl hh))
+  intro k v p v' hl hf _ hwv
+  right
+  unfold valueOf
+  rw [writeInitLoop_find env k _ ms f p hf]
+  simp [mem_keys_of_lookup _ _ _ hl, hl, hwv]
+
+/-- one action of a history: what was a value of this run stays one, and the values after the action are added -/
+theorem act_within (env : Env P N V) (H : String → V → Prop) (ms : MState N V) (fs : FS P) (a : Act V)
+    (f : Option Fault) (hnames : (ms.params.map (·.name)).Nodup) (hlaw : ∀ n v, env.imp n (env.exp n v) = some v)
+    (hdisk : loadRaw env.parse (fs env.tgt) = ms.believed) (h : Within env H ms) :
+    Within env (fun n v => H n v ∨ valueOf (act env ms (fs env.tgt) a f).ms.params n = some v)
+      (act env ms (fs env.tgt) a f).ms := by
+  cases a with
+  | set n v =>
+    simp only [act]
+    apply announce_within env _ ms n v f hnames hlaw _ (h.mono (fun _ _ hh => Or.inl hh))
+    intro p hp _
+    right
+    rw [announce_params, hp]
+    simp [valueOf_setValue, hp]
+  | save =>
+    simp only [act]
+    exact (saveParameters_within env H ms f hnames hlaw h).mono (fun _ _ hh => Or.inl hh)
+  | writeInit => exact writeInit_within env H ms f hnames hlaw h
+  | load =>
+    simp only [act, loadParameters]
+    have hst := applyLoaded_static { ms with believed := loadRaw env.parse (fs env.tgt) }
+      (loadEntries ms.params env.imp (loadRaw env.parse (fs env.tgt)))
+    apply writeInit_within env H _ f (by rw [hst.1]; exact hnames) hlaw
+    refine ⟨fun n p hf hp => h.cur n p (by rw [hst.1] at hf; exact hf) hp, fun n p hf hp => ?_⟩
+    rw [hst.1] at hf
+    rw [hst.2.1]
+    simp only [hdisk]
+    exact h.stored n p hf hp
+  | factoryReset =>
+    simp only [act, factoryReset]
+    exact writeInit_within env H _ f hnames hlaw ⟨h.cur, h.stored⟩
+
+theorem act_names (env : Env P N V) (ms : MState N V) (file : Option Bytes) (a : Act V) (f : Option Fault) :
+    (act env ms file a f).ms.params.map (·.name) = ms.params.map (·.name) := by
+  cases a with
+  | set n v =>
+    simp only [act, announce_params]
+    cases findParam ms.params n <;> simp [setValue_names]
+  | save => simp only [act]; rw [(saveParameters_params env ms f).1]
+  | writeInit => exact writeInitLoop_names env _ ms f
+  | load =>
+    simp only [act, loadParameters, writeInit]
+    rw [writeInitLoop_names, (applyLoaded_static _ _).1]
+  | factoryReset =>
+    simp only [act, factoryReset, writeInit]
+    rw [writeInitLoop_names]
+
+/-- `n` has had the value `v` at the start of `hist` or after one of its actions -/
+def Visited (env : Env P N V) (w : World P N V) (hist : List (Act V × Option Fault)) (n : String) (v : V) : Prop :=
+  ∃ i, i ≤ hist.length ∧ valueOf (World.run env w (hist.take i)).ms.params n = some v
+
+theorem world_run_cons (env : Env P N V) (w : World P N V) (a : Act V × Option Fault) (l : List (Act V × Option Fault)) :
+    World.run env w (a :: l) = World.run env (World.step env w a) l := by
+  unfold World.run; rw [List.foldl_cons]
+
+theorem world_run_names (env : Env P N V) : ∀ (hist : List (Act V × Option Fault)) (w : World P N V),
+    (World.run env w hist).ms.params.map (·.name) = w.ms.params.map (·.name) := by
+  intro hist
+  induction hist with
+  | nil => intro w; rfl
+  | cons a rest ih =>
+    intro w
+    rw [world_run_cons, ih]
+    exact act_names env w.ms _ a.1 a.2
+
+/-- every history: what the module holds and what the file holds are values of this run -/
+theorem world_run_within (env : Env P N V) (ps0 : List (Param V)) (htt : env.tgt ≠ env.tmp) (hc : Codec env ps0)
+    (hlaw : ∀ n v, env.imp n (env.exp n v) = some v) :
+    ∀ (hist : List (Act V × Option Fault)) (w : World P N V) (H : String → V → Prop),
+      Good env ps0 w.fs w.ms → (w.ms.params.map (·.name)).Nodup → Within env H w.ms →
+      Within env (fun n v => H n v ∨ Visited env w hist n v) (World.run env w hist).ms := by
+  intro hist
+  induction hist with
+  | nil => intro w H _ _ h; exact h.mono (fun _ _ hh => Or.inl hh)
+  | cons a rest ih =>
+    intro w H hgood hnames h
+    rw [world_run_cons]
+    have h1 := act_within env H w.ms w.fs a.1 a.2 hnames hlaw hgood.disk h
+    have hg1 := act_good env ps0 htt hc w.fs w.ms a.1 a.2 hgood
+    have hn1 : ((World.step env w a).ms.params.map (·.name)).Nodup := by
+      show ((act env w.ms (w.fs env.tgt) a.1 a.2).ms.params.map (·.name)).Nodup
+      rw [act_names]; exact hnames
+    refine (ih (World.step env w a) _ hg1 hn1 h1).mono ?_
+    intro n v hh
+    rcases hh with (hh | hh) | ⟨i, hi, hv⟩
+    · exact Or.inl hh
+    · exact Or.inr ⟨1, by simp, by simpa [World.run, World.step] using hh⟩
+    · refine Or.inr ⟨i + 1, by simpa using hi, ?_⟩
+      rw [List.take_succ_cons, world_run_cons]; exact hv
+
+end provenance
+
 /-! ## a concrete environment for the non-vacuity examples of `Props/C17`
 
 One persistent parameter "a" (with a write method that refuses values above 100) and a plain parameter "b"; numbers
